@@ -20,7 +20,7 @@ func init() {
 			"R2 every unchecked type assertion in the module has a provenance proof (set of possible dynamic types computed from implementers, callee returns, memoised closures, pool/sync.Map contents) that is included in the asserted type; " +
 			"R3 contradiction rule for optional values: a struct field that is compared with nil somewhere is only invoked/dereferenced under a dominating non-nil fact (or after a non-nil store); values obtained together with an error are not used on the error branch; " +
 			"R4 Init->Evaluate typestate for every registered action and operator: a field invoked or dereferenced by Evaluate is assigned on every successful path of Init / the factory, or tested for nil before use; " +
-			"R5 run-time limits reach slice bounds only range-checked (shared with C10.R2/R3); R6 (incl. indices counted down in a loop, which need a lower bound) look-ahead and fixed-position reads in the configuration parser, macro expander, string helpers, actions and engine are dominated by a length fact (A9 shapes only); " +
+			"R5 run-time limits reach slice bounds only range-checked (shared with C10.R2/R3); R6 (incl. indices counted down in a loop, which need a lower bound, and variables indexing fixed-size arrays, which need both bounds; validators returning an error contribute what they guarantee when they return nil) look-ahead and fixed-position reads in the configuration parser, macro expander, string helpers, actions and engine are dominated by a length fact (A9 shapes only); " +
 			"R7 Include recursion is bounded by a counter tested before recursing; R8 every non-constant size handed to an allocation primitive (make, Builder/Buffer.Grow, Repeat) is provably non-negative, and a make with both len and cap has len <= cap; R2 also covers assertions to interface types (every possible dynamic type implements the target); R3 also follows pointer fields that a composite literal leaves unset and nothing ever assigns (nil for the object's whole life) through accessors and interface wrapping to every dereference.",
 		NotDecided: []string{
 			"panics from arithmetic, map writes on nil maps, and index shapes outside x[c], x[v+c], x[len-c]",
